@@ -101,6 +101,8 @@ struct Runner<'a> {
     paths: Vec<String>,
     orphaned: bool,
     walks: u64,
+    /// the last event that left `initialized` false although options were negotiated
+    uninit_cause: &'static str,
 }
 
 fn norm_components(path: &str) -> Option<Vec<Option<String>>> {
@@ -133,6 +135,7 @@ impl<'a> Runner<'a> {
             paths: vec![],
             orphaned: false,
             walks: 0,
+            uninit_cause: "after-destroy",
         }
     }
 
@@ -193,6 +196,12 @@ impl<'a> Runner<'a> {
                 self.hit(&self.prop.clone(), format!("{}:panic:{}", self.prop, kind), format!("step `{}` panicked", st));
             }
             return;
+        }
+        if f[0] == "d" {
+            self.uninit_cause = "after-destroy";
+        }
+        if f[0] == "i" && so.res.starts_with('e') && so.res != "e22" {
+            self.uninit_cause = "after-failed-init";
         }
         match f[0] {
             "m" => self.after_mount(&f, &so, &pre_live),
@@ -691,8 +700,8 @@ impl<'a> Runner<'a> {
         }
         let (ia, ib) = (a.vfs.initialized(), self.w.vfs.initialized());
         if ia != ib {
-            let key = if ia { "C19:initialized:empty-in_opts" } else { "C19:initialized:after-destroy" };
-            hits.push((key.into(), format!("initialized() is {} on the original and {} on the restored instance (in_opts = {:#x})", ia, ib, a.vfs.options().in_opts.bits())));
+            let key = if ia { "C19:initialized:empty-in_opts".to_string() } else { format!("C19:initialized:{}", self.uninit_cause) };
+            hits.push((key, format!("initialized() is {} on the original and {} on the restored instance (in_opts = {:#x})", ia, ib, a.vfs.options().in_opts.bits())));
             diverged = true;
         }
         let (oa, ob) = (a.vfs.options(), self.w.vfs.options());
